@@ -29,7 +29,13 @@ prefer = common.prefer
 
 
 def queries(tier, seed=0):
-    return [q for q in dyn.base_queries(tier, level='net') if q['kind'] != 'noop'] + loaded.queries()
+    qs = [q for q in dyn.base_queries(tier, level='net') if q['kind'] != 'noop'] + loaded.queries()
+    # firewall rules between subnets with higher indices: four subnets, smallest name sets
+    from ..scen import Shape
+    deep = Shape([1, 1, 1, 1], 1, 1, 1).to_json()
+    for t in ([4, 0], [3, 0]):
+        qs.append(dict(shape=deep, kind='exploit', target=t, name='s0', os=None, level='net', host_fw=False))
+    return qs
 
 
 def run(src, q):
